@@ -426,6 +426,45 @@ pub struct T36 {
     id: Option<BB>,
 }
 
+#[derive(Deserialize, PartialEq, Debug, Clone)]
+pub enum TxtPayload {
+    #[serde(rename = "$text")]
+    L(Vec<B<String>>),
+    A,
+    Bx { #[serde(rename = "@k", default)] k: String },
+}
+impl Default for TxtPayload {
+    fn default() -> Self {
+        TxtPayload::A
+    }
+}
+#[derive(Deserialize, PartialEq, Debug, Clone)]
+pub enum TxtPayload2 {
+    #[serde(rename = "$text")]
+    P((u8, u8)),
+    #[serde(rename = "k")]
+    K(Kind),
+    O(Option<Vec<B<u8>>>),
+}
+
+#[derive(Deserialize, PartialEq, Debug, Clone, Default)]
+#[serde(rename = "ve")]
+pub struct T38 {
+    #[serde(rename = "@id", default)]
+    id: Option<String>,
+    #[serde(rename = "$value", default)]
+    v: TxtPayload,
+}
+
+#[derive(Deserialize, PartialEq, Debug, Clone, Default)]
+#[serde(rename = "vo2")]
+pub struct T39 {
+    #[serde(rename = "$value", default)]
+    v: Option<TxtPayload2>,
+    #[serde(rename = "@n", default)]
+    n: Option<TxtPayload>,
+}
+
 /// HashMap with an order-independent Debug rendering (iteration order of a
 /// randomised hash map must never reach a log, a digest or a replay file)
 #[derive(Deserialize, PartialEq, Clone, Default)]
@@ -438,7 +477,7 @@ impl std::fmt::Debug for HM {
     }
 }
 
-pub const N_TYPES: u32 = 38;
+pub const N_TYPES: u32 = 40;
 
 pub fn type_name(id: u32) -> &'static str {
     match id {
@@ -474,6 +513,8 @@ pub fn type_name(id: u32) -> &'static str {
         35 => "enum T35 {$text(u8,u8)|A|S{@x?}|N(enum)}",
         36 => "T36 {$value: Vec<T35>, @id: bytes?}",
         37 => "Vec<()>",
+        38 => "T38 {@id?, $value: enum {$text(Vec<String>)|A|Bx{@k}}} (enum not in a list)",
+        39 => "T39 {$value: Option<enum {$text((u8,u8))|k(enum)|O(Option<Vec<u8>>)}>, @n: enum?}",
         23 => "Vec<Option<u8>>",
         24 => "T24 {$value: Vec<Option<String>>}",
         25 => "T25 {item*: Option<Item>, $text?, @o: xs:list of Option<u8>}",
@@ -685,6 +726,8 @@ pub fn gen_valid_doc(rng: &mut Rng, ty: u32) -> String {
         35 => Some(rng.pick(&["1 2", "<A/>", "<S x=\"3\"/>", "<N>One</N>", "1", "1 2 3", "<N><Two/></N>", "<S>t</S>", "text", "<A>1 2</A>", ""]).to_string()),
         36 => Some(format!("<tv{}>{}</tv>", rng.pick(&["", " id=\"x\"", " id=\"\""]), rng.pick(&["", "1 2", "<A/>3 4<S/>", "<N>Two</N>", "1 2<A/>", "<A/><A/>5", "x", "<S x=\"1\"/>1 2 3"]))),
         37 => Some(rng.pick(&["<u/><u/>", "<u>x</u>", "", "<u/>text<u/>", "<u><a/></u>"]).to_string()),
+        38 => Some(format!("<ve{}>{}</ve>", rng.pick(&["", " id=\"1\""]), rng.pick(&["a b c", "", "<A/>", "<Bx k=\"v\"/>", "High", "<![CDATA[x y]]>", "a<A/>", "<A/>b", " a  b "]))),
+        39 => Some(format!("<vo2{}>{}</vo2>", rng.pick(&["", " n=\"A\"", " n=\"a b\"", " n=\"\""]), rng.pick(&["1 2", "", "<k>One</k>", "<O>1 2 3</O>", "<O/>", "1", "1 2 3", "<k/>", "x", "<![CDATA[1 2]]>"]))),
         23 => Some(rng.pick(&["<a>1</a><a/><a>3</a>", "<![CDATA[]]>", "<a/>", "1 2 3", "<a>1</a>", "<a><![CDATA[]]></a>", "<a xsi:nil=\"true\" xmlns:xsi=\"http://www.w3.org/2001/XMLSchema-instance\"/><a>2</a>"]).to_string()),
         24 => Some(format!("<vo>{}</vo>", rng.pick(&["", "a", "<a>1</a><b/>", "<![CDATA[]]>", "t<a/>u", "<a/><![CDATA[]]><b/>", "<a><![CDATA[]]></a>"]))),
         25 => Some(format!(
@@ -728,7 +771,8 @@ const DE_INSERTS: &[&str] = &[
 ];
 const DE_ATTR_INSERTS: &[&str] = &[
     " xsi:nil=\"true\"", " xmlns:xsi=\"http://www.w3.org/2001/XMLSchema-instance\" xsi:nil=\"true\"", " nil=\"true\"",
-    " xsi:nil=\"false\"", " k=\"dup\" k=\"dup2\"", " a=b", " a", " =\"v\"", " x=\"1\"", " id='2'", " xmlns=\"u\"", " xmlns:p=\"u\"",
+    " xsi:nil=\"false\"", " k=\"dup\" k=\"dup2\"", " xmlns:xsi=\"http://www.w3.org/2001/XMLSchema-instance\" xsi:nil=\"false\" xsi:nil=\"true\"",
+    " xsi:nil=\"0\" xsi:nil=\"1\"", " xsi:nil=\"x\" xsi:nil=\"true\" xmlns:xsi=\"http://www.w3.org/2001/XMLSchema-instance\"", " xsi:nil=\"true\" xsi:nil=\"false\"", " a=b", " a", " =\"v\"", " x=\"1\"", " id='2'", " xmlns=\"u\"", " xmlns:p=\"u\"",
     " p:nil=\"true\" xmlns:p=\"http://www.w3.org/2001/XMLSchema-instance\"", " k=\"&lt;\"", " k=\"&bad;\"", " a='", " list=\"1 2  3\"",
 ];
 
@@ -921,9 +965,26 @@ fn de_both<T: DeserializeOwned + PartialEq + std::fmt::Debug>(plan: &Plan, from_
     };
     // overlapped-lists build: a third run with a small event buffer limit (TooManyEvents
     // path, replay checkpoints); only the no-panic / budget monitors apply to it
+    // one Deserializer used for several values in a row (multi-document streams are a
+    // documented usage): only the no-panic / budget monitors apply
+    if from_str_too && plan.run % 4 == 0 {
+        let text = std::str::from_utf8(&plan.doc).unwrap();
+        arm_budget(3 * plan.doc.len() + 64);
+        let r = guard(|| {
+            let mut de = quick_xml::de::Deserializer::from_str(text);
+            for _ in 0..3 {
+                if T::deserialize(&mut de).is_err() || de.is_empty() {
+                    break;
+                }
+            }
+        });
+        if let Err(p) = r {
+            LIMITED_PANIC.with(|c| *c.borrow_mut() = Some(p));
+        }
+    }
     #[cfg(feature = "enc")]
     {
-        if from_str_too {
+        if from_str_too && LIMITED_PANIC.with(|c| c.borrow().is_none()) {
             let text = std::str::from_utf8(&plan.doc).unwrap();
             let limit = std::num::NonZeroUsize::new(1 + (plan.run % 4) as usize);
             arm_budget(plan.doc.len());
@@ -981,6 +1042,8 @@ fn dispatch(plan: &Plan, from_str_too: bool) -> (Option<Res3>, Res3, bool, u32) 
         35 => de_both::<T35>(plan, from_str_too),
         36 => de_both::<T36>(plan, from_str_too),
         37 => de_both::<Vec<B<()>>>(plan, from_str_too),
+        38 => de_both::<T38>(plan, from_str_too),
+        39 => de_both::<T39>(plan, from_str_too),
         23 => de_both::<Vec<B<Option<u8>>>>(plan, from_str_too),
         24 => de_both::<T24>(plan, from_str_too),
         25 => de_both::<T25>(plan, from_str_too),
@@ -1072,7 +1135,7 @@ impl Scenario for De {
         st.note_schedule(crate::plan::fnv_bytes(&plan.stream.cuts.iter().flat_map(|c| c.to_le_bytes()).collect::<Vec<u8>>()) ^ crate::plan::fnv_bytes(&plan.doc) ^ calls as u64);
         let limited = LIMITED_PANIC.with(|c| c.borrow_mut().take()).map(Res3::Panic);
         let mut str_ok = false;
-        for (which, r) in [("from_str", a.as_ref()), ("from_reader", Some(&b)), ("Deserializer::from_str + event_buffer_size(1..4)", limited.as_ref())] {
+        for (which, r) in [("from_str", a.as_ref()), ("from_reader", Some(&b)), ("Deserializer::from_str used for several values / with event_buffer_size(1..4)", limited.as_ref())] {
             match r {
                 Some(Res3::Panic(p)) => match p.kind {
                     PanicKind::Harness | PanicKind::Exec => crate::core::harness_fail(which, p, plan),
